@@ -15,6 +15,7 @@ type half struct {
 	cap     int
 	wclosed bool // writing side closed: reader gets EOF after draining
 	rclosed bool // reading side closed: writer's data goes nowhere
+	reset   bool // closed by a reset: the reader gets ECONNRESET, buffered data is gone
 }
 
 // Conn is one end of a virtual, in-memory, scheduler-controlled connection
@@ -30,7 +31,10 @@ type Conn struct {
 	local     net.Addr
 	remote    net.Addr
 	BytesRead int64
-	peer      *Conn
+	// ResetAfterPeerClose makes every write after the peer closed fail with EPIPE
+	// (a connection reset) instead of offering that as a deviation.
+	ResetAfterPeerClose bool
+	peer                *Conn
 }
 
 type vaddr string
@@ -78,6 +82,9 @@ func (c *Conn) Read(b []byte) (int, error) {
 		case s.passed(c.rdl):
 			err = timeoutErr("read")
 			s.event(c.in.obj, "read-timeout", 0, true)
+		case c.in.reset:
+			err = &net.OpError{Op: "read", Net: "tcp", Err: syscall.ECONNRESET}
+			s.event(c.in.obj, "read-reset", 0, true)
 		case len(b) == 0:
 			s.event(c.in.obj, "read-0", 0, true)
 		case len(c.in.buf) > 0:
@@ -116,7 +123,7 @@ func (c *Conn) Write(b []byte) (int, error) {
 			case c.out.rclosed:
 				// the peer is gone: like a real socket the first writes may
 				// still succeed; a reset is the deviation
-				if Deviate(2) == 1 {
+				if c.ResetAfterPeerClose || c.in.reset || Deviate(2) == 1 {
 					err = &net.OpError{Op: "write", Net: "tcp", Err: syscall.EPIPE}
 					s.event(c.out.obj, "write-epipe", 0, true)
 				} else {
@@ -170,6 +177,22 @@ func (c *Conn) Close() error {
 		s.event(c.in.obj, "close", 0, true)
 	})
 	return err
+}
+
+// Reset closes this end abruptly (RST): what it had written and the peer has not
+// read yet is discarded, the peer's reads fail with ECONNRESET and its writes with EPIPE.
+func (c *Conn) Reset() error {
+	s := S
+	s.do(c.out.obj, "Reset", nil, func() {
+		c.closed = true
+		c.out.wclosed, c.out.reset = true, true
+		c.out.buf = nil
+		c.in.rclosed = true
+		c.in.buf = nil
+		s.event(c.out.obj, "reset", 0, true)
+		s.event(c.in.obj, "reset", 0, true)
+	})
+	return nil
 }
 
 // CloseWrite half-closes: the peer reads EOF after draining, we can still read.
